@@ -236,6 +236,9 @@ Definition flatten_diag (d : BT) : BT :=
 (* rows [start, start+len) of X  (rhs[..., start:start+len, :]) *)
 Definition drows (X : BT) (start len : nat) : BT :=
   mkBT (bsh X) len (nc X) (fun I i j => ent X I (start + i)%nat j).
+(* rhs.narrow(cat_dim, start, len) along the batch dimension at position p (innermost-first) *)
+Definition bnarrow (p start len : nat) (X : BT) : BT :=
+  mkBT (bset (bsh X) p len) (nr X) (nc X) (fun I i j => ent X (bset I p (nth p I 0%nat + start)%nat) i j).
 (* torch.cat(dim=-2) of results *)
 Definition dcat_rows (l : list BT) : BT :=
   match l with
@@ -377,7 +380,16 @@ Fixpoint mm (t : bool) (e : OpExpr) (X : BT) {struct e} : BT :=
       match d, t with
       | CatRows, false | CatCols, true => dcat_rows (map (fun x => fr (mm t x X)) ops)
       | CatRows, true | CatCols, false => dsum_pieces (pieces ops 0%nat)
-      | CatBatch _, _ => spec_mm t e X
+      | CatBatch p, _ =>
+          (* cat_dim < -2: rhs.expand(output batch shape); per piece rhs.narrow(cat_dim, curr_idx, size), t._matmul;
+             torch.cat(res_list, dim=cat_dim)   (the transposed object keeps the cat dimension) *)
+          let Xe := dexpand (bcast (sz_b (sz e)) (bsh X)) X in
+          dcat ((fix gob (l : list OpExpr) (off : nat) : list BT :=
+                   match l with
+                   | [] => []
+                   | x :: r => let len := nth p (sz_b (sz x)) 0%nat in
+                               fr (mm t x (bnarrow p off len Xe)) :: gob r (off + len)%nat
+                   end) ops 0%nat) (CatBatch p)
       end
   | BatchRepeat b rep =>
       let s := sz e in
@@ -416,6 +428,14 @@ Fixpoint pub_matmul (e : OpExpr) (X : BT) : BT :=
 Definition pub_rmatmul (e : OpExpr) (Y : BT) : BT := dtr (pub_matmul (tr e) (fr (dtr Y))).
 (* v @ e  for a 1-D v (given as n x 1): e.mT.matmul(v) *)
 Definition pub_rmatvec (e : OpExpr) (v : BT) : BT := pub_matmul (tr e) v.
+
+(* ---- size accessors ------------------------------------------------------------------------------ *)
+
+(* LinearOperator.shape / size() = self._size();  batch_shape = shape[:-2];  matrix_shape = shape[-2:];
+   dim() = ndimension() = len(self.size());  numel() = self.shape.numel();  size(-1), size(-2) index the shape *)
+Definition pub_shape (e : OpExpr) : sz3 := sz e.
+Definition pub_dim (e : OpExpr) : nat := (length (sz_b (sz e)) + 2)%nat.
+Definition pub_numel (e : OpExpr) : nat := (bnumel (sz_b (sz e)) * sz_m (sz e) * sz_n (sz e))%nat.
 
 (* ---- to_dense ------------------------------------------------------------------------------------ *)
 
